@@ -1644,6 +1644,12 @@ Termination == <>(\A self \in ProcSet: pc[self] = "Done")
 (* Properties (C06, C14) *)
 AllDone == \A p \in ProcSet : pc[p] = "Done"
 
+(* C14: no call hangs.  Every process is a fair PlusCal process, so `Spec` carries weak fairness per   *)
+(* goroutine and `Termination` (from the translation) says that every call eventually returns:       *)
+(* no parked writer left behind by Close, no livelock in the re-validation loop of acquireState.      *)
+(* Checked as PROPERTY Termination without VIEW (lib/checks_conc.py liveness_run); with FIXED = FALSE *)
+(* (the pinned Close) TLC reports the writer parked for ever in awaitRotationLocked.                  *)
+
 (* C14: no call racing with Close panics (nil state, nil/closed channel, closed metaDB) *)
 NoPanic == panicked = {}
 
